@@ -1,5 +1,6 @@
 import Femio.Model.FistrMsh
 import Femio.Model.FistrOrient
+import Femio.Model.FistrHist
 import Femio.Lemmas.FistrMshProps
 import Femio.Lemmas.FistrRoundtrip
 import Femio.Lemmas.FistrG4
@@ -427,5 +428,87 @@ theorem C01_split_egroup_counterexample_upstream :
     (readMshCfg ⟨false, false⟩ (g6Text false)).map (·.egroups) = some [(c!"ALL", [5, 6]), (c!"A", [5, 6])] ∧
     readMshCfg ⟨false, true⟩ (g6Text true) = readMshCfg ⟨false, true⟩ (g6Text false) ∧
     readMshCfg ⟨false, true⟩ (g6Text false) = readMshCfg ⟨false, false⟩ (g6Text false) := by decide
+
+end Femio.C01
+
+/-! ### histories on one object (`Model/FistrHist.lean`): the writer is a function of the object's current public state,
+does not modify the object, and replaces what the output name held -/
+namespace Femio.C01
+open Femio.Fistr Femio.Fistr.Hist
+
+/-- **C01_write_keeps_object**: whatever the history (public modifications, files left under the output name, earlier
+    writes with or without `overwrite=True`), the object's state is the one its last public modification left: no
+    write changes the object it is called on. -/
+theorem C01_write_keeps_object (cfg : Hist.Cfg) (s : St) (ops : List Op) : (run cfg s ops).obj = lastObj s.obj ops := by
+  induction ops generalizing s with
+  | nil => rfl
+  | cons op ops ih =>
+    have hrun : run cfg s (op :: ops) = run cfg (step cfg s op) ops := rfl
+    rw [hrun, ih]
+    cases op with
+    | modify m' => rfl
+    | place t => rfl
+    | remove => rfl
+    | write ow =>
+      have h : (step cfg s (.write ow)).obj = s.obj := by
+        simp only [step]
+        split <;> rfl
+      rw [h]
+      rfl
+
+/-- **C01_history_roundtrip**: after ANY history `ops` on one object (started in any state `s`, the output name
+    holding anything or nothing), a write that is allowed to proceed (`overwrite=True`, or no file under the name)
+    leaves a file that `readMsh` reads to `canon` of the object's CURRENT state — the state its last public modification
+    left, `lastObj` — provided that state is well-formed; and the object still is in that state afterwards.  Nothing of
+    the earlier states of the object or of the earlier content of the file survives. -/
+theorem C01_history_roundtrip (s : St) (ops : List Op) (ow : Bool)
+    (hwf : WF (lastObj s.obj ops)) (hallowed : ow = true ∨ (run Cfg.fixed s ops).file = none) :
+    ((run Cfg.fixed s (ops ++ [.write ow])).file.bind readMsh = some (canon (lastObj s.obj ops))) ∧
+    (run Cfg.fixed s (ops ++ [.write ow])).obj = lastObj s.obj ops := by
+  have hobj := C01_write_keeps_object Cfg.fixed s ops
+  have hrun : run Cfg.fixed s (ops ++ [.write ow]) = step Cfg.fixed (run Cfg.fixed s ops) (.write ow) := by
+    simp [run, List.foldl_append]
+  have hrt := C01_roundtrip _ hwf
+  rw [← hobj] at hrt
+  have hguard : (!ow && (run Cfg.fixed s ops).file.isSome) = false := by
+    rcases hallowed with h | h
+    · simp [h]
+    · simp [h]
+  rw [hrun]
+  cases hw : writeMsh (run Cfg.fixed s ops).obj with
+  | none => rw [hw] at hrt; simp at hrt
+  | some t =>
+    rw [hw] at hrt
+    have hwr : written Cfg.fixed (run Cfg.fixed s ops) ow = some t := by
+      unfold written
+      rw [hguard, hw]
+      rfl
+    constructor
+    · simp only [step, hwr]
+      rw [← hobj]
+      simpa using hrt
+    · simp only [step, hwr]
+      exact hobj
+
+/-- an earlier export of another (two-node, one-line-element) mesh under the output name -/
+def staleText : List Line :=
+  [c!"!HEADER", c!"Data written by femio", c!"!NODE", c!"77,0.000000000000E+00,0.000000000000E+00,0.000000000000E+00",
+   c!"78,1.000000000000E+00,0.000000000000E+00,0.000000000000E+00", c!"!ELEMENT,TYPE=301", c!"900,77,78", c!"!END"]
+
+/-- non-vacuity of `C01_history_roundtrip`: object built as another mesh, written, modified to `exMesh`, a stale export
+    placed under the name, written again with `overwrite=True` -/
+example : (run Cfg.fixed ⟨{ exMesh with temp := none, sec := none }, none⟩
+      [.write false, .modify exMesh, .place staleText, .write false, .write true]).file.bind readMsh = some (canon exMesh) :=
+  (C01_history_roundtrip ⟨{ exMesh with temp := none, sec := none }, none⟩
+    [.write false, .modify exMesh, .place staleText, .write false] true C01_exMesh_wf (Or.inl rfl)).1
+
+/-- **C01_append_counterexample** (the seeded change C01-6, kernel-evaluated): a writer that opens the `.msh` without
+    truncating it appends the new mesh behind the `!END` of the stale export; the reader does not stop at `!END`, so the
+    file no longer reads back to the mesh that was written (the stale line element 900 and its nodes come back). -/
+theorem C01_append_counterexample :
+    (run ⟨false⟩ ⟨exMesh, none⟩ [.place staleText, .write true]).file.bind readMsh ≠ some (canon exMesh) ∧
+    (run Cfg.fixed ⟨exMesh, none⟩ [.place staleText, .write true]).file.bind readMsh = some (canon exMesh) := by
+  refine ⟨by decide, ?_⟩
+  exact (C01_history_roundtrip ⟨exMesh, none⟩ [.place staleText] true C01_exMesh_wf (Or.inl rfl)).1
 
 end Femio.C01
